@@ -91,7 +91,40 @@ class _Canon(ast.NodeTransformer):
     (`not not a` -> `a`, De Morgan, `not a == b` -> `a != b`, likewise in / is; order comparisons are left alone because
     `not a < b` and `a >= b` differ for unordered values).  Positions are preserved."""
 
+    def _loop_var_private(self, loop: ast.For) -> bool:
+        """every read of the loop variable in the enclosing function happens inside a loop / comprehension that binds it itself"""
+        fns = self.__dict__.get("_fn_nodes") or []
+        if not fns:
+            return False
+        v = loop.target.id
+        covered = set()
+        for x in ast.walk(fns[-1]):
+            if isinstance(x, ast.For) and isinstance(x.target, ast.Name) and x.target.id == v:
+                covered |= {id(y) for b in x.body for y in ast.walk(b)}
+            elif isinstance(x, (ast.ListComp, ast.SetComp, ast.GeneratorExp, ast.DictComp)) \
+                    and any(isinstance(g.target, ast.Name) and g.target.id == v for g in x.generators):
+                covered |= {id(y) for y in ast.walk(x)}
+        return all(id(x) in covered for x in ast.walk(fns[-1]) if isinstance(x, ast.Name) and x.id == v and isinstance(x.ctx, ast.Load))
+
     def visit_For(self, n: ast.For):
+        # `for v in xs: if C: raise E` (nothing else in the loop, C a plain comparison of names / attributes / constants) is
+        # `if any(C for v in xs): raise E` -- the spelling the rejection rules read
+        if not n.orelse and len(n.body) == 1 and isinstance(n.body[0], ast.If) and not n.body[0].orelse and len(n.body[0].body) == 1 \
+                and isinstance(n.body[0].body[0], ast.Raise) and isinstance(n.target, ast.Name) \
+                and all(isinstance(x, (ast.BoolOp, ast.boolop, ast.Compare, ast.cmpop, ast.Name, ast.Attribute, ast.Constant, ast.expr_context, ast.UnaryOp, ast.Not))
+                        for x in ast.walk(n.body[0].test)) \
+                and not any(isinstance(x, ast.Name) and x.id == n.target.id for x in ast.walk(n.body[0].body[0])) \
+                and self._loop_var_private(n):
+            inner = n.body[0]
+            gen = ast.GeneratorExp(elt=inner.test, generators=[ast.comprehension(target=n.target, iter=n.iter, ifs=[], is_async=0)])
+            call = ast.Call(func=ast.Name(id="any", ctx=ast.Load()), args=[gen], keywords=[])
+            new = ast.If(test=call, body=inner.body, orelse=[])
+            for x in ast.walk(new):
+                if not hasattr(x, "lineno") and isinstance(x, (ast.expr, ast.stmt)):
+                    ast.copy_location(x, n)
+            ast.copy_location(new, n)
+            ast.fix_missing_locations(new)
+            return self.visit(new)
         # a loop over a short literal table of rows -- `for flag, prefix, xs in ((f1, P1, a), (f2, P2, b)): BODY` -- is BODY once per row
         # with the row's entries in place of the loop variables (rows of plain names / attributes / constants, no break / continue at this
         # level, loop variables not assigned in the body): a table-driven spelling of two or three parallel blocks
@@ -402,6 +435,7 @@ class _Canon(ast.NodeTransformer):
                 for nm in x.names:
                     counts.setdefault(nm, [0, 0])[1] += 5
         stack.append(counts)
+        self.__dict__.setdefault("_fn_nodes", []).append(n)
         try:
             n = self.generic_visit(n)
             self._field_copies(n, counts)
@@ -414,6 +448,7 @@ class _Canon(ast.NodeTransformer):
             return n
         finally:
             stack.pop()
+            self.__dict__["_fn_nodes"].pop()
 
     def _flag_locals(self, fn: ast.FunctionDef) -> None:
         """`emit = not self.flag_x` (assigned once, from attributes of `self` / parameters that the function never stores to, combined
